@@ -109,6 +109,10 @@ NOTES = {
  "C05-w14m1": "missed at first, by a fidelity gap of the instrumenter: the rewritten `for v := range ch` (and map range) declared the iteration variable inside the loop body, i.e. per iteration, while knut's go.mod (go 1.21) gives one variable shared by all iterations; a goroutine capturing it was therefore immune in the simulation. The instrumenter now reads the go directive and keeps one variable for all iterations when it is below 1.22; then caught by C05 (directive lost or duplicated) and C19 (census).",
  "C05-w14m2": "no verdict at first (exit 2): errgroup.TryGo was not a task-creation site for the instrumenter, so the function ran outside the scheduler. TryGo is wrapped like Go now; then C05 stays silent at the quick budget (its journals are accepted ones and single-defect mutants in narrow trees) and C19 reports it (failing include swallowed: status depends on the schedule).",
  "C16-w14m2": "missed at first: no run ever had a fault on standard output (reports were captured from an always-working stream). cmd.OutOrStdout() is now a fault point (the instrumenter wraps it): C16's stdout-fault sub-check fails every Write call of a ledger of several buffers in turn (short write with 1, 100 or all-but-one bytes accepted, EPIPE, ENOSPC; transient or for good) and demands that what was delivered is a prefix of the undisturbed ledger; then caught (stdout-not-a-prefix-after-write-fault: a fragment is sent twice).",
+ "C14-w15m1": "missed at first: the only inverted accrual window of the edge sub-check crossed period boundaries. New edge input: a window that ends before it starts inside one period of its interval (every interval); then caught (panic: decimal division by 0).",
+ "C14-w15m2": "missed at first, by a fidelity gap of the run-time: simrt.Close was no scheduling point, so the closing task always ran on to its next step (here context's cancel function, a synchronisation inside an uninstrumented library) before a receiver could see the closed channel. Every close is now followed by a scheduling point; infer with a missing include also runs under six further schedules; then caught (error-swallowed).",
+ "C16-w15m1": "missed at first: same-day twins of a transaction always differed in something. A quarter of C16's journals now repeat one to three transactions verbatim (twice or three times); then caught (transaction-lost).",
+ "C18-w15m2": "missed at first: format was given four files at most, the change hangs from the ninth failing file on. One format-n case in eight now passes 11-15 files of which all but one to three do not parse; then caught (deadlock).",
 }
 DROPPED = [
  "C04 (wave 7, first change): Builder.Build skips the day sort while days 'arrive in ascending order'; the same idea as C05-m2 (caught by C04, C05, C19).",
